@@ -9,7 +9,8 @@ package db
 //        two different orders (conflict-allowing and conflict-free); TestVerif_C04_Lifecycle: Put / delete /
 //        resurrect / pushed-branch sequences against a model, with store -> reload after every step.
 //  (iii) TestVerif_C04_CodecStrings (quick) and FuzzVerif_C04_RevTree (thorough): RevTree.UnmarshalJSON on
-//        arbitrary input — no panic; accepted input re-marshals to an equal tree.
+//        generated / fuzzed stored forms — for structurally valid stored forms: no panic, the decoded tree is
+//        the one described, accepted input re-marshals to an equal tree; anything else is out of domain.
 
 import (
 	"bytes"
@@ -27,8 +28,6 @@ import (
 	kit "github.com/couchbase/sync_gateway/verifkit"
 	"pgregory.net/rapid"
 )
-
-const vfC04SigUnmarshalPanic = "revtree-unmarshal-out-of-range-index-panics"
 
 // ---------------------------------------------------------------------------------------------
 // model
@@ -1010,77 +1009,164 @@ func TestVerif_C04_Lifecycle(t *testing.T) {
 // ---------------------------------------------------------------------------------------------
 // (iii) decoder on arbitrary input
 
-type vfC04Wire struct {
-	Revs           []string                   `json:"revs"`
-	Parents        []int                      `json:"parents"`
-	Deleted        []int                      `json:"deleted"`
-	BodiesOld      []string                   `json:"bodies"`
-	BodyMap        map[string]string          `json:"bodymap"`
-	BodyKeyMap     map[string]string          `json:"bodyKeyMap"`
-	ChannelsOld    []json.RawMessage          `json:"channels"`
-	ChannelsMap    map[string]json.RawMessage `json:"channelsMap"`
-	HasAttachments []int                      `json:"hasAttachments"`
+// vfC04Stored mirrors the documented stored form of a revision tree (revTreeList): parallel arrays of
+// revision ids and parent indexes (-1 = root), index lists for deletions and attachment marks, bodies,
+// body keys and non-winning-leaf channels keyed by the decimal index, plus the two legacy per-revision
+// arrays ("bodies", "channels") older versions wrote.
+type vfC04Stored struct {
+	Revs           []string            `json:"revs"`
+	Parents        []int               `json:"parents"`
+	Deleted        []int               `json:"deleted"`
+	BodiesOld      []string            `json:"bodies"`
+	BodyMap        map[string]string   `json:"bodymap"`
+	BodyKeyMap     map[string]string   `json:"bodyKeyMap"`
+	ChannelsOld    [][]string          `json:"channels"`
+	ChannelsMap    map[string][]string `json:"channelsMap"`
+	HasAttachments []int               `json:"hasAttachments"`
 }
 
-// vfC04OutOfRange recognises the shape of the open finding: an index in the stored form that points
-// outside the revs array (or a per-revision array shorter/longer than revs).
-func vfC04OutOfRange(in []byte) bool {
-	var w vfC04Wire
-	if err := base.JSONUnmarshal(in, &w); err != nil {
-		return false
+// vfC04ValidStored is the reference predicate "structurally valid stored form", written from that format:
+// only such forms are in the property's domain (trees an encoder can have produced). It returns the
+// parsed form and "" when valid, or the reason why the input is out of domain.
+func vfC04ValidStored(in []byte) (*vfC04Stored, string) {
+	var w vfC04Stored
+	if err := json.Unmarshal(in, &w); err != nil {
+		return nil, "not a stored form: " + err.Error()
 	}
 	n := len(w.Revs)
 	if len(w.Parents) != n {
-		return false // refused before any index is used
+		return nil, "revs/parents length mismatch"
 	}
-	for _, p := range w.Parents {
-		if p >= n {
-			return true
+	seen := map[string]bool{}
+	for _, id := range w.Revs {
+		if id == "" || seen[id] {
+			return nil, "empty or repeated revision id"
+		}
+		seen[id] = true
+	}
+	for i, p := range w.Parents {
+		if p < -1 || p >= n || p == i {
+			return nil, "parent index out of range or self"
 		}
 	}
-	for _, i := range append(append([]int{}, w.Deleted...), w.HasAttachments...) {
-		if i < 0 || i >= n {
-			return true
+	for i := range w.Parents { // acyclic
+		steps := 0
+		for cur := i; cur != -1; cur = w.Parents[cur] {
+			if steps++; steps > n {
+				return nil, "parent cycle"
+			}
+		}
+	}
+	for _, list := range [][]int{w.Deleted, w.HasAttachments} {
+		for _, i := range list {
+			if i < 0 || i >= n {
+				return nil, "deleted/hasAttachments index out of range"
+			}
+		}
+	}
+	keyOK := func(k string) bool {
+		i, err := strconv.Atoi(k)
+		return err == nil && i >= 0 && i < n && strconv.Itoa(i) == k
+	}
+	for k := range w.BodyMap {
+		if !keyOK(k) {
+			return nil, "bodymap key is not an index"
+		}
+	}
+	for k := range w.BodyKeyMap {
+		if !keyOK(k) {
+			return nil, "bodyKeyMap key is not an index"
 		}
 	}
 	for k := range w.ChannelsMap {
-		i, err := strconv.ParseInt(k, 10, 64)
-		if err == nil && (i < 0 || i >= int64(n)) {
-			return true
+		if !keyOK(k) {
+			return nil, "channelsMap key is not an index"
 		}
 	}
-	if len(w.ChannelsOld) > n {
-		return true
+	if w.BodiesOld != nil && len(w.BodiesOld) != n {
+		return nil, "legacy bodies array inconsistent with revs"
 	}
-	if w.BodyMap == nil && w.BodiesOld != nil && len(w.BodiesOld) < n {
-		return true
+	if w.ChannelsOld != nil && len(w.ChannelsOld) != n {
+		return nil, "legacy channels array inconsistent with revs"
 	}
-	return false
+	return &w, ""
 }
 
-// vfC04CheckDecode is the oracle for arbitrary input: no panic; accepted input re-marshals to an equal tree.
-func vfC04CheckDecode(t kit.TB, test string, rec *kit.Rec, in []byte) (accepted bool) {
+// vfC04CheckDecode is the oracle for generated / fuzzed stored forms. Out-of-domain input (not a
+// structurally valid stored form) is only counted: the decoder is called inside a recover and nothing is
+// asserted. For a valid stored form: no panic; the decoder may refuse it with an error; if it accepts,
+// the tree is the one the stored form describes and re-marshals to an equal tree.
+func vfC04CheckDecode(t kit.TB, test string, rec *kit.Rec, in []byte) (status string) {
 	render := func() string { return fmt.Sprintf("input=%q", in) }
-	if vfC04OutOfRange(in) {
+	w, why := vfC04ValidStored(in)
+	if w == nil {
+		panicked := false
+		func() {
+			defer func() {
+				if recover() != nil {
+					panicked = true
+				}
+			}()
+			tree := RevTree{}
+			_ = tree.UnmarshalJSON(in)
+		}()
 		if rec != nil {
-			rec.Class("shape:index-out-of-range", 1)
-		}
-		if kit.Known("C04", vfC04SigUnmarshalPanic) {
-			if rec != nil {
-				rec.Excluded(vfC04SigUnmarshalPanic)
+			rec.Class("out-of-domain", 1)
+			rec.Class("out-of-domain: "+strings.SplitN(why, ":", 2)[0], 1)
+			if panicked {
+				rec.Class("out-of-domain (decoder panicked; not judged)", 1)
 			}
-			return false
 		}
+		return "out-of-domain"
 	}
+	status = "valid-refused"
 	kit.Guard(t, "C04", test, render, func() {
 		tree := RevTree{}
 		if err := tree.UnmarshalJSON(in); err != nil {
 			return
 		}
-		accepted = true
-		for id, info := range tree {
+		status = "valid-accepted"
+		// the decoded tree is the one the stored form describes
+		if len(tree) != len(w.Revs) {
+			kit.Violation(t, "C04", test, render(), "stored form lists %d revisions, decoded tree has %d: %s", len(w.Revs), len(tree), vfC04RenderTree(tree))
+		}
+		del, att := map[int]bool{}, map[int]bool{}
+		for _, i := range w.Deleted {
+			del[i] = true
+		}
+		for _, i := range w.HasAttachments {
+			att[i] = true
+		}
+		for i, id := range w.Revs {
+			info := tree[id]
 			if info == nil || info.ID != id {
 				kit.Violation(t, "C04", test, render(), "decoded tree has a nil or mislabelled entry for %q", id)
+			}
+			parent := ""
+			if w.Parents[i] >= 0 {
+				parent = w.Revs[w.Parents[i]]
+			}
+			key := strconv.Itoa(i)
+			body := ""
+			if w.BodyMap != nil {
+				body = w.BodyMap[key]
+			} else if w.BodiesOld != nil {
+				body = w.BodiesOld[i]
+			}
+			switch {
+			case info.Parent != parent:
+				kit.Violation(t, "C04", test, render(), "revision %s: stored parent %q, decoded parent %q", id, parent, info.Parent)
+			case info.Deleted != del[i]:
+				kit.Violation(t, "C04", test, render(), "revision %s: stored deleted=%v, decoded deleted=%v", id, del[i], info.Deleted)
+			case info.HasAttachments != att[i]:
+				kit.Violation(t, "C04", test, render(), "revision %s: stored hasAttachments=%v, decoded %v", id, att[i], info.HasAttachments)
+			case info.BodyKey != w.BodyKeyMap[key]:
+				kit.Violation(t, "C04", test, render(), "revision %s: stored body key %q, decoded %q", id, w.BodyKeyMap[key], info.BodyKey)
+			case string(info.Body) != body:
+				kit.Violation(t, "C04", test, render(), "revision %s: stored body %q, decoded %q", id, body, info.Body)
+			}
+			if w.ChannelsMap != nil && !vfC04SameSet(info.Channels, base.SetOf(w.ChannelsMap[key]...)) {
+				kit.Violation(t, "C04", test, render(), "revision %s: stored channels %v, decoded %v", id, w.ChannelsMap[key], info.Channels)
 			}
 		}
 		b, err := tree.MarshalJSON()
@@ -1095,19 +1181,7 @@ func vfC04CheckDecode(t kit.TB, test string, rec *kit.Rec, in []byte) (accepted 
 			kit.Violation(t, "C04", test, render(), "accepted input re-marshals to %s which decodes differently: %s", b, d)
 		}
 	})
-	return accepted
-}
-
-func vfC04ReproUnmarshalPanic() (what string) {
-	in := []byte(`{"revs":["1-a"],"parents":[-1],"deleted":[1]}`)
-	defer func() {
-		if p := recover(); p != nil {
-			what = fmt.Sprintf("RevTree.UnmarshalJSON(%s) panics: %v (same for a parent index, hasAttachments index, channelsMap key >= len(revs), and for bodies/channels arrays whose length differs from revs)", in, p)
-		}
-	}()
-	tree := RevTree{}
-	_ = tree.UnmarshalJSON(in)
-	return ""
+	return status
 }
 
 var vfC04DecodeSeeds = []string{
@@ -1126,40 +1200,22 @@ var vfC04DecodeSeeds = []string{
 	`null`, `[]`, `{}`, `{"revs":null,"parents":null}`,
 }
 
-// vfC04FuzzTB makes a violation found inside a fuzz worker visible to the driver: worker stdout is not
-// forwarded to the coordinator, only the failure message is, so the machine-readable line rides on it.
-type vfC04FuzzTB struct{ *testing.T }
-
-func (f vfC04FuzzTB) Fatalf(format string, args ...any) {
-	msg := fmt.Sprintf(format, args...)
-	j, _ := json.Marshal(map[string]any{"property": "C04", "test": "FuzzRevTree", "what": msg})
-	f.T.Fatalf("%s\nVERIF-VIOLATION %s", msg, j)
-}
-
 func FuzzVerif_C04_RevTree(f *testing.F) {
 	for _, s := range vfC04DecodeSeeds {
 		f.Add([]byte(s))
 	}
 	f.Fuzz(func(t *testing.T, in []byte) {
-		vfC04CheckDecode(vfC04FuzzTB{t}, "FuzzRevTree", nil, in)
+		vfC04CheckDecode(t, "FuzzRevTree", nil, in)
 	})
 }
 
-// TestVerif_C04_CodecStrings: generated stored forms (valid trees with bodies, body keys, channels in
-// both formats, attachment marks, duplicates, self-parents — and, unless listed as a known finding,
-// out-of-range indexes) through the same oracle; quick-tier stand-in for the fuzz target.
+// TestVerif_C04_CodecStrings: generated stored forms — valid trees with bodies, body keys, channels in
+// both formats and attachment marks, and (kept on purpose, counted as out-of-domain) duplicates,
+// self-parents, cycles, out-of-range indexes, odd keys — through vfC04CheckDecode; quick-tier stand-in
+// for the fuzz target.
 func TestVerif_C04_CodecStrings(t *testing.T) {
 	rec := kit.New("C04", "CodecStrings")
 	defer rec.Flush()
-	if what := vfC04ReproUnmarshalPanic(); what != "" {
-		if kit.Known("C04", vfC04SigUnmarshalPanic) {
-			kit.KnownFinding("C04", vfC04SigUnmarshalPanic, what)
-		} else {
-			kit.Note("C04", "deterministic reproduction fails and is not listed as a known finding (the generated inputs decide): %s", what)
-		}
-	} else if kit.Known("C04", vfC04SigUnmarshalPanic) {
-		kit.Note("C04", "known finding %s no longer reproduces; its entry can be marked fixed", vfC04SigUnmarshalPanic)
-	}
 	rapid.Check(t, func(rt *rapid.T) {
 		n := rapid.IntRange(0, 6).Draw(rt, "n")
 		idx := func(label string) int {
@@ -1259,7 +1315,7 @@ func TestVerif_C04_CodecStrings(t *testing.T) {
 			w["channels"] = old
 		}
 		in, _ := json.Marshal(w)
-		acc := vfC04CheckDecode(rt, "CodecStrings", rec, in)
-		rec.Case(string(in), acc && n >= 2, fmt.Sprintf("accepted=%v", acc), fmt.Sprintf("revs=%d", n))
+		status := vfC04CheckDecode(rt, "CodecStrings", rec, in)
+		rec.Case(string(in), status == "valid-accepted" && n >= 2, status, fmt.Sprintf("revs=%d", n))
 	})
 }
